@@ -325,6 +325,29 @@ def gen_fields_val(rng, fields, depth):
     return out
 
 
+def loaded_expectation(t, x):
+    """the value a save + load of x returns: #[savefile_ignore]d fields are not stored and come back as Default"""
+    k = t["k"]
+
+    def fields(fs, xs):
+        return [(f["default"] if f["kind"] == "ignored" else (y if f["kind"] in ("removed", "abiremoved") else loaded_expectation(f["ty"], y))) for f, y in zip(fs, xs)]
+    if k in ("vec", "seq", "array", "arrayvec") and x[0] == "seq":
+        return ("seq", [loaded_expectation(t["t"], y) for y in x[1]])
+    if k == "option" and x[0] == "some":
+        return ("some", loaded_expectation(t["t"], x[1]))
+    if k == "result" and x[0] in ("ok", "err"):
+        return (x[0], loaded_expectation(t["a"] if x[0] == "ok" else t["b"], x[1]))
+    if k in ("box", "cell"):
+        return loaded_expectation(t["t"], x)
+    if k == "tuple" and x[0] == "rec":
+        return ("rec", [loaded_expectation(u, y) for u, y in zip(t["ts"], x[1])])
+    if k == "struct" and x[0] == "rec":
+        return ("rec", fields(t["fields"], x[1]))
+    if k == "enum" and x[0] == "var":
+        return ("var", x[1], fields(t["variants"][x[1]]["fields"], x[2]))
+    return x
+
+
 def all_variants_vals(rng, t):
     """one value per variant for enums (so every variant is exercised)"""
     return [("var", i, gen_fields_val(rng, v["fields"], 1)) for i, v in enumerate(t["variants"])]
